@@ -1,7 +1,8 @@
 #!/usr/bin/env python3
 """Re-run the registered checks against every stored seeded change (no cargo test / demo: those were confirmed when the
 seed was stored) and refresh `detected_by` in its meta.json.  A seed that is detected now but was not when it was
-stored gets a `history` note.  usage: seed_recheck.py [seed-id ...] [--checks C01,C02]"""
+stored gets a `history` note.  usage: seed_recheck.py [seed-id ...] [--checks C01,C02] [--own] [--shard i/n]
+  --own   : only the seed's own property and the checks recorded as detecting it (cheap refresh after rule changes)"""
 import glob, json, os, subprocess, sys, shutil
 VERIF = os.path.dirname(os.path.dirname(os.path.abspath(__file__)))
 def sh(cmd, **kw): return subprocess.run(cmd, capture_output=True, text=True, **kw)
@@ -10,9 +11,17 @@ def main():
     only = None
     if "--checks" in args:
         only = args[args.index("--checks") + 1].split(","); del args[args.index("--checks"):args.index("--checks") + 2]
+    own = "--own" in args
+    if own:
+        args.remove("--own")
+    shard = None
+    if "--shard" in args:
+        i, n = args[args.index("--shard") + 1].split("/"); shard = (int(i), int(n)); del args[args.index("--shard"):args.index("--shard") + 2]
     seeds = args or sorted(os.path.basename(os.path.dirname(p)) for p in glob.glob(os.path.join(VERIF, "seeded", "*", "meta.json")))
     accepted = open(os.path.join(VERIF, "rules", "ACCEPTED")).read().split()
-    wt = "/tmp/vseed_recheck"
+    if shard:
+        seeds = [x for k, x in enumerate(seeds) if k % shard[1] == shard[0]]
+    wt = "/tmp/vseed_recheck" + (str(shard[0]) if shard else "")
     sh(["git", "-C", "/repo", "worktree", "remove", "--force", wt]); shutil.rmtree(wt, ignore_errors=True)
     sh(["git", "-C", "/repo", "worktree", "add", "-q", "--detach", wt])
     try:
@@ -25,6 +34,8 @@ def main():
                 print(sid, "PATCH NO LONGER APPLIES to /repo HEAD:", a.stderr[-200:]); continue
             pid = meta.get("breaks_property") or meta.get("property")
             todo = only or ([pid] if pid in accepted else []) + [c for c in accepted if c != pid]
+            if own:
+                todo = ([pid] if pid in accepted else []) + [c for c in meta.get("detected_by", []) if c != pid and c in accepted]
             det = {}
             for c in todo:
                 r = sh([sys.executable, os.path.join(VERIF, "check.py"), c, "--tier", "thorough"], env=dict(os.environ, VERIF_REPO=wt))
@@ -34,6 +45,8 @@ def main():
             before = meta.get("detected_by", [])
             if only:
                 now = sorted(set(before) - set(only) | set(now))
+            if own:
+                meta["detected_by_note"] = "refreshed with the seed's own check and the previously detecting checks only"
             if set(now) - set(before) and not before:
                 meta["history"] = (meta.get("history", "") + f" Missed when first confirmed; detected by {', '.join(now)} after the "
                                    "checks were strengthened (see DESIGN.md §11).").strip()
